@@ -274,7 +274,241 @@ pub fn random(rng: &mut Rng, stack: bool, n: usize) -> Vec<Case> {
     (0..n).map(|_| Case { fam: "random", ast: random_program(rng, stack) }).collect()
 }
 
+/// C19: sequences of sources assembled one after the other on ONE thread with the documented
+/// state reset in between; every result is logged next to the result of a fresh-thread assembly.
+fn session_main(args: &Args) {
+    let seed = args.num("seed", 1);
+    let n = args.num("n", 30) as usize;
+    let path = args.req("out").to_string();
+    let summary = on_fresh_thread(move || {
+        lace::features::init("stack".parse().unwrap());
+        let mut rng = Rng::new(seed ^ 0x5E55);
+        let mut out = Out::create(&path);
+        let mut id = 0u64;
+        for _ in 0..n {
+            let names: Vec<String> = (0..3).map(|i| label_name(i, &mut rng)).collect();
+            let len = 3 + rng.below(5) as usize;
+            let mut seq: Vec<(Vec<Item>, Option<String>)> = Vec::new();
+            for _ in 0..len {
+                let a = &names[0];
+                let b = &names[1];
+                let c = &names[2];
+                let item = match rng.below(8) {
+                    // valid, defines a b
+                    0 | 1 => (vec![pc_lab("ld", 1, b).lab(a), add_i(1, 1, 1), fill(7).lab(b), plain("halt")], None),
+                    // valid, same labels as its predecessor may have used, other order
+                    2 => (vec![fill(1).lab(b), br_lab(7, a), plain("halt").lab(a), pc_lab("lea", 0, c), stringz("q").lab(c)], None),
+                    // fails in the lexer
+                    3 => (vec![add_i(0, 0, 1).lab(a)], Some(format!("{} add r0 r0 #1\n{} .stringz \"unterminated\nhalt\n", a, b))),
+                    4 => (vec![add_i(0, 0, 1).lab(a)], Some(format!("{} add r0 r0 #1\n.bogus\n{} halt #99999\n", a, b))),
+                    // fails after some labels were recorded: duplicate label / undefined reference / parse error at the end
+                    5 => (vec![add_i(0, 0, 1).lab(a), fill(2).lab(b), plain("halt").lab(a)], None),
+                    6 => (vec![add_i(0, 0, 1).lab(a), pc_lab("ld", 2, "nowhere_"), fill(2).lab(b)], None),
+                    _ => (vec![add_i(0, 0, 1).lab(a), fill(2).lab(b), add_i(1, 1, 99).lab(c)], None),
+                };
+                seq.push(item);
+            }
+            // the sequence, then the same sequence again (repetition gives the same result every time)
+            let twice: Vec<_> = seq.iter().cloned().chain(seq.iter().cloned()).collect();
+            for (ast, raw) in twice {
+                let src = match &raw {
+                    Some(text) => text.clone(),
+                    None => render(&mut rng, &ast, &Layout { wild: false, comments: false }).src,
+                };
+                let here = assemble(&src, true);
+                let src2 = src.clone();
+                let fresh = on_fresh_thread(move || {
+                    lace::features::init("stack".parse().unwrap());
+                    assemble(&src2, true)
+                });
+                let mut ev = here.to_json();
+                ev["ev"] = json!("asm");
+                ev["id"] = json!(id);
+                ev["fam"] = json!("session");
+                ev["stack"] = json!(true);
+                ev["ast"] = ast_json(&ast);
+                ev["src"] = json!(src);
+                ev["lexfail"] = json!(raw.is_some());
+                ev["diag"] = json!(here.diag);
+                ev["fres"] = json!(fresh.res);
+                ev["fwords"] = json!(fresh.words);
+                ev["forig"] = json!(fresh.orig);
+                ev["fdiag"] = json!(fresh.diag);
+                out.emit(&ev);
+                id += 1;
+            }
+        }
+        json!({"family": "asm", "events": out.finish(), "cases": n, "layout_mismatch": 0})
+    });
+    println!("\n{}", summary);
+}
+
+const TOK_KINDS: [(&str, &str); 22] = [
+    ("LABEL", "foo"), ("ADD", "add"), ("NOT", "not"), ("BR", "brnz"), ("JMP", "jmp"), ("JSR", "jsr"), ("LD", "ld"), ("LDR", "ldr"), ("CALL", "call"),
+    ("RET", "ret"), ("TRAPG", "trap"), ("HALT", "halt"), ("DEC", "#1"), ("HEX", "x2"), ("STR", "\"s\""), ("REG", "r1"), ("ORIG", ".orig"), ("FILL", ".fill"),
+    ("BLKW", ".blkw"), ("STRINGZ", ".stringz"), ("BREAK", ".break"), ("END", ".end"),
+];
+
+fn emit_total(out: &mut Out, ev: &str, src: &str, toks: Option<Vec<&str>>, id: u64) {
+    let res = assemble(src, true);
+    let mut e = json!({"ev": ev, "id": id, "src": src, "res": res.res, "stage": res.stage, "msg": res.msg,
+                       "diag_ok": res.diag_ok, "spans_ok": res.spans_ok});
+    if let Some(t) = toks {
+        e["toks"] = json!(t);
+    }
+    out.emit(&e);
+}
+
+/// C05: texts for which only totality (and, for token-kind sequences, the verdict) is claimed.
+fn total_main(args: &Args) {
+    let mode = args.req("fam").to_string();
+    let seed = args.num("seed", 1);
+    let len = args.num("len", 3) as usize;
+    let n = args.num("n", 1000) as usize;
+    let stride = args.num("stride", 1) as u64;
+    let phase = args.num("phase", 0) as u64;
+    let path = args.req("out").to_string();
+    let summary = on_fresh_thread(move || {
+        lace::features::init("stack".parse().unwrap());
+        let mut rng = Rng::new(seed ^ 0x707A1);
+        let mut out = Out::create(&path);
+        let mut id = 0u64;
+        match mode.as_str() {
+            // every sequence of token kinds up to `len`
+            "tokens" => {
+                let k = TOK_KINDS.len() as u64;
+                let mut counter = 0u64;
+                for l in 0..=len {
+                    for code in 0..k.pow(l as u32) {
+                        counter += 1;
+                        if counter % stride != phase % stride {
+                            continue;
+                        }
+                        let mut c = code;
+                        let mut kinds = Vec::new();
+                        let mut text = String::new();
+                        for _ in 0..l {
+                            let (kind, t) = TOK_KINDS[(c % k) as usize];
+                            c /= k;
+                            kinds.push(kind);
+                            text.push_str(t);
+                            text.push_str(*rng.pick(&[" ", " ", "\n", ", ", "\t"]));
+                        }
+                        emit_total(&mut out, "tok", &text, Some(kinds), id);
+                        id += 1;
+                    }
+                }
+            }
+            // every string up to `len` over representatives of the lexer's character classes
+            "chars" => {
+                const CH: [&str; 18] = ["a", "x", "r", "0", "7", "#", "-", ".", "\"", "\\", ";", " ", ",", ":", "\n", "é", "😀", "$"];
+                let k = CH.len() as u64;
+                let mut counter = 0u64;
+                for l in 0..=len {
+                    for code in 0..k.pow(l as u32) {
+                        counter += 1;
+                        if counter % stride != phase % stride {
+                            continue;
+                        }
+                        let mut c = code;
+                        let mut text = String::new();
+                        for _ in 0..l {
+                            text.push_str(CH[(c % k) as usize]);
+                            c /= k;
+                        }
+                        emit_total(&mut out, "total", &text, None, id);
+                        id += 1;
+                    }
+                }
+            }
+            // mutations of grammar-derived programs
+            "mutate" => {
+                const JUNK: [&str; 24] = ["é", "😀", "\"", "\\", ";", "#", "x", "0x", ".", ".fill", ".blkw", ".stringz", ".break", ".end", ".orig", "#99999", "xFFFFF",
+                                           "r8", "R0", ":", ",", "\n", "\u{0}", "#-"];
+                for _ in 0..n {
+                    let ast = random_program(&mut rng, true);
+                    let wild = rng.chance(1, 2);
+                    let src = render(&mut rng, &ast, &Layout { wild, comments: true }).src;
+                    let mut toks: Vec<String> = src.split(' ').map(|s| s.to_string()).collect();
+                    for _ in 0..1 + rng.below(3) {
+                        if toks.is_empty() {
+                            break;
+                        }
+                        let i = rng.below(toks.len() as u64) as usize;
+                        match rng.below(5) {
+                            0 => {
+                                toks.remove(i);
+                            }
+                            1 => {
+                                let t = toks[i].clone();
+                                toks.insert(i, t);
+                            }
+                            2 => {
+                                let j = rng.below(toks.len() as u64) as usize;
+                                toks.swap(i, j);
+                            }
+                            3 => toks[i] = rng.pick(&JUNK).to_string(),
+                            _ => toks.insert(i, rng.pick(&JUNK).to_string()),
+                        }
+                    }
+                    let mut text = toks.join(" ");
+                    // byte-level mutation, kept valid UTF-8 by working on characters
+                    if rng.chance(1, 2) && !text.is_empty() {
+                        let mut cs: Vec<char> = text.chars().collect();
+                        for _ in 0..1 + rng.below(4) {
+                            let i = rng.below(cs.len() as u64) as usize;
+                            match rng.below(3) {
+                                0 => {
+                                    cs.remove(i);
+                                    if cs.is_empty() {
+                                        break;
+                                    }
+                                }
+                                1 => cs.insert(i, *rng.pick(&['é', '"', ';', '\\', '\n', 'x', '#', '.', '😀', ' '])),
+                                _ => cs[i] = char::from_u32(0x20 + rng.below(0x60) as u32).unwrap(),
+                            }
+                        }
+                        text = cs.into_iter().collect();
+                    }
+                    emit_total(&mut out, "total", &text, None, id);
+                    id += 1;
+                }
+            }
+            // size extremes
+            "huge" => {
+                let mut texts: Vec<String> = Vec::new();
+                texts.push(".blkw xFFFF\n".repeat(2));
+                texts.push(".blkw xFFFF\nhalt\n".to_string());
+                texts.push("br far\n.blkw x8000\nfar halt\n".to_string());
+                texts.push("far halt\n.blkw x8000\nbr far\n".to_string());
+                texts.push("ld r0 far\n.blkw x7FFF\nfar halt\n".to_string());
+                texts.push("jsr far\n.blkw xFFF0\nfar halt\n".to_string());
+                texts.push("far halt\n.blkw xFFF0\ncall far\n".to_string());
+                texts.push("add r0 r0 r0\n".repeat(70_000));
+                texts.push(format!("{}br top\n", "top add r0 r0 r0\n".to_string() + &"add r1 r1 r1\n".repeat(65_534)));
+                texts.push(format!(".stringz \"{}\"\n", "a".repeat(70_000)));
+                texts.push(".blkw #-1\nhalt\n".to_string());
+                texts.push(".blkw #-32768\n.blkw #-32768\nhalt\n".to_string());
+                texts.push(format!(".orig xFFFF\n{}", "halt\n".repeat(10)));
+                for t in texts {
+                    emit_total(&mut out, "total", &t, None, id);
+                    id += 1;
+                }
+            }
+            other => panic!("unknown totality family {other}"),
+        }
+        json!({"family": "asm", "events": out.finish(), "cases": id, "layout_mismatch": 0})
+    });
+    println!("\n{}", summary);
+}
+
 pub fn main(args: &Args) {
+    if args.req("fam") == "session" {
+        return session_main(args);
+    }
+    if ["tokens", "chars", "mutate", "huge"].contains(&args.req("fam")) {
+        return total_main(args);
+    }
     let fam = args.req("fam").to_string();
     let seed = args.num("seed", 1);
     let stack = args.num("stack", 1) != 0;
